@@ -94,14 +94,25 @@ def newPlan (fuel : Nat) : List Tree → Option ArgT
       else some (.call name (rest.map (compileArg fuel)))
     | none => some (.call b!"asm" (xs.map (compileArg fuel)))
 
-/-- `Fn.Simplify` (tree level) -/
+/-- `Fn.Simplify` (tree level); fuel bounds the nesting of calls -/
 def simplify : Nat → ArgT → Tree
-  | 0, _ => .null
-  | _ + 1, .lit t => t
-  | _ + 1, .raw t _ => t
-  | _ + 1, .path p => .str (pathText p)
+  | _, .lit t => t
+  | _, .raw t _ => t
+  | _, .path p => .str (pathText p)
+  | _, .unk => .null
+  | 0, .call _ _ => .null
   | n + 1, .call f args => .arr (.str f :: args.map (simplify n))
-  | _ + 1, .unk => .null
+
+/-- every path of the compiled plan prints to a text that parses back to it (decidable; the driver
+evaluates it on every case) -/
+def pathsRoundTrip : Nat → ArgT → Bool
+  | _, .lit _ => true
+  | _, .path p => parsePath (pathText p) == some p
+  | _, .unk => false
+  | 0, .raw _ _ => false
+  | 0, .call _ _ => false
+  | n + 1, .raw _ es => es.all (pathsRoundTrip n)
+  | n + 1, .call _ args => args.all (pathsRoundTrip n)
 
 /-- does the compiled plan leave the model anywhere -/
 def ArgG.hasUnk : Nat → ArgG L → Bool
